@@ -669,8 +669,239 @@ async fn c12_scenario(p: C12Plan) {
     }
 }
 
+
+// ------------------------------------------------------------------------------------------
+// C12, concurrent UPDATEs: whatever the interleaving of the tasks that handle them, the
+// outcome has to be the outcome of *some* order of the same messages handled one at a time.
+// The reference is the real code itself run sequentially (a fresh server per order), so no
+// model deviation can enter.
+
+#[derive(Serialize, Deserialize, Clone, Debug)]
+struct ConcPlan {
+    sim: SimConfig,
+    initial_serial: u32,
+    /// handled one after another first
+    prefix: Vec<UpdateMsg>,
+    /// then these, as concurrent tasks
+    concurrent: Vec<UpdateMsg>,
+    journal: bool,
+}
+
+pub struct ConcurrentPart;
+
+type Outcome = (Vec<u16>, BTreeMap<Key, BTreeSet<String>>);
+
+async fn conc_server(u: &Universe, p: &ConcPlan) -> Option<Server> {
+    let init = initial_records(u, p.initial_serial);
+    let mut handler = new_handler(u, Some(&init), AxfrPolicy::AllowAll).await;
+    if p.journal {
+        handler.set_journal(new_journal()).await;
+        if handler.persist_to_journal().await.is_err() {
+            return None;
+        }
+    }
+    Some(Server::new(u, handler))
+}
+
+fn conc_bytes(u: &Universe, id: u16, m: &UpdateMsg) -> Option<Vec<u8>> {
+    let mut msg = build_update_message(u, id, m);
+    msg.finalize(&signer(), SimTime::current_time()).ok()?;
+    msg.to_vec().ok()
+}
+
+async fn conc_apply(server: &Server, bytes: Vec<u8>) -> Option<u16> {
+    match server.handle::<SimTime>(bytes, Protocol::Tcp).await {
+        Ok(Some(b)) => Message::from_vec(&b).ok().map(|m| u16::from(m.metadata.response_code)),
+        _ => None,
+    }
+}
+
+async fn conc_scenario(p: ConcPlan) {
+    let u = universe();
+    let k = p.concurrent.len();
+    // ---- the concurrent execution ---------------------------------------------------------------
+    let Some(server) = conc_server(&u, &p).await else {
+        exec::violate("C12.harness", "", "server".into());
+        return;
+    };
+    let server = std::rc::Rc::new(server);
+    for (i, m) in p.prefix.iter().enumerate() {
+        let Some(b) = conc_bytes(&u, 0x3000 + i as u16, m) else { return };
+        let _ = conc_apply(&server, b).await;
+    }
+    let mut joins = Vec::new();
+    for (i, m) in p.concurrent.iter().enumerate() {
+        let Some(b) = conc_bytes(&u, 0x3100 + i as u16, m) else { return };
+        let server = server.clone();
+        joins.push(exec::spawn(&format!("update{i}"), async move { conc_apply(&server, b).await }));
+    }
+    let mut rcodes: Vec<u16> = Vec::new();
+    for j in joins {
+        match exec::timeout(std::time::Duration::from_secs(600), j).await {
+            Ok(Some(rc)) => rcodes.push(rc),
+            Ok(None) => {
+                exec::violate("C12.response", "none-concurrent", "a concurrent UPDATE got no decodable response".into());
+                return;
+            }
+            Err(()) => {
+                exec::violate("C12.stall", "concurrent", "a concurrent UPDATE was still pending after 10 simulated minutes".into());
+                return;
+            }
+        }
+    }
+    let (zone, serial, _) = server.dump().await;
+    let got: Outcome = (rcodes.clone(), zone.clone());
+    // ---- every sequential order of the same messages, on the real code ---------------------------
+    let mut perms: Vec<Vec<usize>> = Vec::new();
+    fn permute(cur: &mut Vec<usize>, left: &mut Vec<usize>, out: &mut Vec<Vec<usize>>) {
+        if left.is_empty() {
+            out.push(cur.clone());
+            return;
+        }
+        for i in 0..left.len() {
+            let x = left.remove(i);
+            cur.push(x);
+            permute(cur, left, out);
+            cur.pop();
+            left.insert(i, x);
+        }
+    }
+    permute(&mut Vec::new(), &mut (0..k).collect(), &mut perms);
+    let mut explained = false;
+    let mut content_explained = false;
+    let mut orders: Vec<String> = Vec::new();
+    for perm in &perms {
+        let Some(s2) = conc_server(&u, &p).await else { return };
+        for (i, m) in p.prefix.iter().enumerate() {
+            let Some(b) = conc_bytes(&u, 0x3000 + i as u16, m) else { return };
+            let _ = conc_apply(&s2, b).await;
+        }
+        let mut rc2 = vec![0u16; k];
+        for &i in perm {
+            let Some(b) = conc_bytes(&u, 0x3100 + i as u16, &p.concurrent[i]) else { return };
+            rc2[i] = conc_apply(&s2, b).await.unwrap_or(u16::MAX);
+        }
+        let (z2, serial2, _) = s2.dump().await;
+        orders.push(format!("order {perm:?}: rcodes {rc2:?} serial {serial2}"));
+        if z2 == got.1 {
+            content_explained = true;
+            if rc2 == got.0 {
+                explained = true;
+                // the serial: same number of effective changes
+                if serial2 != serial {
+                    exec::count("probe.concurrent_serial_differs_from_sequential_twin");
+                }
+                break;
+            }
+        }
+    }
+    exec::count(if explained { "probe.concurrent_outcome_serializable" } else { "probe.concurrent_outcome_unexplained" });
+    if !explained {
+        let shape = if content_explained { "rcodes-fit-no-order" } else { "zone-fits-no-order" };
+        exec::violate("C12.not-serializable", shape, format!("{k} concurrent UPDATEs {:?} answered {rcodes:?} and left serial {serial}; no sequential order of the same messages on the same code gives this outcome: {}; differences from the last order: zone has {} entries", p.concurrent, orders.join("; "), zone.len()));
+    }
+}
+
+impl Part for ConcurrentPart {
+    fn name(&self) -> &'static str {
+        "concurrent"
+    }
+    fn runs(&self, tier: Tier) -> u64 {
+        match tier {
+            Tier::Quick => 4_000,
+            Tier::Thorough => 300_000,
+        }
+    }
+    fn block(&self, _t: Tier) -> u64 {
+        32
+    }
+    fn gen(&self, seed: u64, _tier: Tier) -> Value {
+        let mut r = Rng::new(seed);
+        let sim = SimConfig::from_seed(seed);
+        let prefix = if r.chance(1, 2) { gen_history(&mut r, 2, false) } else { vec![] };
+        let k = 2 + r.usize_below(2);
+        let mut concurrent = Vec::new();
+        while concurrent.len() < k {
+            concurrent.extend(gen_history(&mut r, 1, false));
+        }
+        concurrent.truncate(k);
+        // make the race meaningful: often let two messages share their first prerequisite / update name
+        if r.chance(2, 3) && concurrent.len() >= 2 {
+            let name = concurrent[0].update.first().map(|s| s.name).unwrap_or(1);
+            for m in concurrent.iter_mut().skip(1) {
+                if let Some(s) = m.update.first_mut() {
+                    s.name = name;
+                }
+                if let Some(s) = m.prereq.first_mut() {
+                    s.name = name;
+                }
+            }
+        }
+        serde_json::to_value(ConcPlan { sim, initial_serial: *r.pick(&[100u32, 100, u32::MAX - 1, 0x7fff_ffff]), prefix, concurrent, journal: r.chance(1, 3) }).unwrap()
+    }
+    fn run(&self, plan: &Value, trace: bool) -> Report {
+        let mut p: ConcPlan = serde_json::from_value(plan.clone()).expect("plan");
+        p.sim.trace = trace;
+        let (h1, _) = history_sig(&p.prefix);
+        let (h2, nt) = history_sig(&p.concurrent);
+        let sig = mix(h1 ^ mix(h2) ^ (p.journal as u64) << 60);
+        let p2 = p.clone();
+        let out = exec::run(&p.sim, async move { conc_scenario(p2).await });
+        finish(out, sig, nt, "C12.stall")
+    }
+    fn shrink(&self, plan: &Value) -> Vec<Value> {
+        let Ok(p) = serde_json::from_value::<ConcPlan>(plan.clone()) else { return vec![] };
+        let mut out = Vec::new();
+        for i in 0..p.prefix.len() {
+            let mut q = p.clone();
+            q.prefix.remove(i);
+            out.push(q);
+        }
+        if p.concurrent.len() > 2 {
+            for i in 0..p.concurrent.len() {
+                let mut q = p.clone();
+                q.concurrent.remove(i);
+                out.push(q);
+            }
+        }
+        for i in 0..p.concurrent.len() {
+            for j in 0..p.concurrent[i].prereq.len() {
+                let mut q = p.clone();
+                q.concurrent[i].prereq.remove(j);
+                out.push(q);
+            }
+            if p.concurrent[i].update.len() > 1 {
+                for j in 0..p.concurrent[i].update.len() {
+                    let mut q = p.clone();
+                    q.concurrent[i].update.remove(j);
+                    out.push(q);
+                }
+            }
+        }
+        if p.journal {
+            let mut q = p.clone();
+            q.journal = false;
+            out.push(q);
+        }
+        if p.sim.policy != hsim::SchedPolicy::Fifo {
+            let mut q = p.clone();
+            q.sim.policy = hsim::SchedPolicy::Fifo;
+            out.push(q);
+        }
+        out.into_iter().map(|q| serde_json::to_value(q).unwrap()).collect()
+    }
+    fn describe(&self) -> Describe {
+        Describe {
+            rule: "plan = (0-2 UPDATEs handled one after another, then 2-3 UPDATEs handled as concurrent tasks of the simulator — the guarded scheduling points between authorisation, prerequisite check, prescan and apply let the seeded scheduler interleave them as a multi-thread runtime could — two of them usually about the same name; with/without journal); non-trivial = at least one update RR; distinct by the forms in the messages".into(),
+            real: vec!["Catalog::handle_request / update", "SqliteZoneHandler::{update, authorize_update, verify_prerequisites, pre_scan, update_records}", "InMemoryZoneHandler", "Journal (in-memory SQLite)"],
+            stub: vec!["no network: raw signed request bytes are handed to the request path", "the guarded yield hook stands in for pre-emption by another worker thread"],
+            assumptions: vec!["reference = the same code run sequentially in every order (serializability), not the RFC model"],
+        }
+    }
+}
+
 pub fn def_c12() -> CheckDef {
-    CheckDef { id: "C12", level: "exploration", parts: vec![Box::new(C12Part)] }
+    CheckDef { id: "C12", level: "exploration", parts: vec![Box::new(C12Part), Box::new(ConcurrentPart)] }
 }
 
 #[allow(dead_code)]
